@@ -40,16 +40,24 @@ func (c *cond) build() query.Condition {
 	}
 	var v interface{}
 	switch {
+	case c.VI != nil && c.VF == nil && (c.Op == "==" || c.Op == ">" || c.Op == ">=" || c.Op == "<" || c.Op == "<="):
+		v = intOperand(*c.VI, c.As, c.Text)
 	case c.VI != nil:
-		if c.Text {
-			v = strconv.FormatInt(*c.VI, 10)
-		} else {
-			v = *c.VI
-		}
+		// float operator with an integer operand
+		v = intOperand(*c.VI, c.As, c.Text)
 	case c.VF != nil:
-		if c.Text {
+		switch {
+		case c.As == "float32":
+			v = float32(*c.VF)
+		case c.As == "exp":
+			v = strconv.FormatFloat(*c.VF, 'e', -1, 64)
+		case c.As == "pad":
+			v = padNumber(strconv.FormatFloat(*c.VF, 'f', -1, 64))
+		case c.As == "plus" && *c.VF >= 0:
+			v = "+" + strconv.FormatFloat(*c.VF, 'f', -1, 64)
+		case c.Text:
 			v = strconv.FormatFloat(*c.VF, 'g', -1, 64)
-		} else {
+		default:
 			v = *c.VF
 		}
 	case c.VB != nil:
@@ -188,6 +196,11 @@ func (c *cond) eval(x content) bool {
 		}
 	case "f==", "f>", "f>=", "f<", "f<=":
 		v, ok := fieldFloat(x, c.Field)
+		if c.VF == nil && c.VI != nil {
+			// integer operand of a float operator: compared as float64
+			f := float64(*c.VI)
+			c = &cond{Op: c.Op, Field: c.Field, VF: &f}
+		}
 		if !ok || c.VF == nil {
 			return false
 		}
@@ -281,4 +294,69 @@ func (c *cond) leaves(f func(l *cond)) {
 	default:
 		f(c)
 	}
+}
+
+// padNumber inserts zeros after the sign of a decimal number: "10" -> "010", "-7" -> "-007".
+func padNumber(s string) string {
+	if strings.HasPrefix(s, "-") {
+		return "-00" + s[1:]
+	}
+	return "0" + s
+}
+
+// intFits reports whether v can be handed over as the given Go type without change.
+func intFits(v int64, as string) bool {
+	switch as {
+	case "int":
+		return true
+	case "int8":
+		return v >= -128 && v <= 127
+	case "int16":
+		return v >= -32768 && v <= 32767
+	case "int32":
+		return v >= -(1<<31) && v <= 1<<31-1
+	case "uint":
+		return v >= 0
+	case "uint8":
+		return v >= 0 && v <= 255
+	case "uint16":
+		return v >= 0 && v <= 65535
+	case "uint32":
+		return v >= 0 && v <= 1<<32-1
+	case "plus":
+		return v >= 0
+	}
+	return true
+}
+
+func intOperand(v int64, as string, text bool) interface{} {
+	if !intFits(v, as) {
+		as = ""
+	}
+	switch as {
+	case "int":
+		return int(v)
+	case "int8":
+		return int8(v)
+	case "int16":
+		return int16(v)
+	case "int32":
+		return int32(v)
+	case "uint":
+		return uint(v)
+	case "uint8":
+		return uint8(v)
+	case "uint16":
+		return uint16(v)
+	case "uint32":
+		return uint32(v)
+	case "pad":
+		return padNumber(strconv.FormatInt(v, 10))
+	case "plus":
+		return "+" + strconv.FormatInt(v, 10)
+	}
+	if text {
+		return strconv.FormatInt(v, 10)
+	}
+	return v
 }
